@@ -654,3 +654,66 @@ func checkBalancedLocks(c *Ctx, pkgs ...string) int {
 	}
 	return n
 }
+
+// flowsOnlyInto: e is an argument of a call to one of pats, or an argument of a helper read
+// in place whose corresponding parameter is used for nothing but that.
+func flowsOnlyInto(p *eng.Prog, info *eng.Info, e ast.Expr, pats ...string) bool {
+	call, isCall := p.Parent(e).(*ast.CallExpr)
+	if !isCall {
+		return false
+	}
+	name := eng.CalleeName(info, call)
+	if eng.NameIn(name, pats...) {
+		return true
+	}
+	h := p.Func(name)
+	if h == nil || h.Adopter == nil {
+		return false
+	}
+	idx := -1
+	for i, a := range call.Args {
+		if a == e {
+			idx = i
+		}
+	}
+	po := paramAt(h, idx)
+	if po == nil {
+		return false
+	}
+	hinfo := h.Info()
+	ok, n := true, 0
+	h.Walk(func(x ast.Node) bool {
+		id, isID := x.(*ast.Ident)
+		if !isID || hinfo.Uses[id] != eng.Object(po) {
+			return true
+		}
+		n++
+		if !flowsOnlyInto(p, hinfo, id, pats...) {
+			ok = false
+		}
+		return true
+	})
+	return ok && n >= 1
+}
+
+// exprAt sees through a parameter of a helper spliced into cf: at location loc (inside one
+// copy of the helper) an identifier naming a parameter stands for the argument of that copy's call.
+func exprAt(cf *eng.CFG, loc eng.Loc, e ast.Expr) ast.Expr {
+	info := cf.F.Info()
+	for i := 0; i < 3; i++ {
+		id, ok := eng.Unparen(e).(*ast.Ident)
+		if !ok {
+			return e
+		}
+		o := info.Uses[id]
+		if o == nil {
+			return e
+		}
+		a := cf.ArgAt(loc, o)
+		if a == nil {
+			return eng.ArgExpr(info, e)
+		}
+		e = a
+	}
+	return e
+}
